@@ -63,6 +63,26 @@ def gen_cases(rng, tier):
     n = 120 if tier == "quick" else 2500
     for _ in range(n):
         yield loop.gen_spec(rng, tier)
+    # synchronous schedulers run long enough for their first bracket to hand out jobs of its higher rungs, with the
+    # non-default DEHB option under which every job is a new trial (nothing is ever resumed)
+    for _ in range(8 if tier == "quick" else 120):
+        while True:
+            spec = loop.gen_spec(rng, tier)
+            if spec["backend"] == "script":
+                break
+        k = rng.choice(["dehb", "dehb", "sync"])
+        spec["scheduler"] = {"kind": k, "modes": rng.choice(["min", "max"]), "reduction_factor": rng.choice([2, 3]),
+                             "brackets": rng.choice([None, 1, 2]), "max_resource_attr": rng.random() < 0.4}
+        if k == "dehb" and rng.random() < 0.6:
+            spec["scheduler"]["support_pause_resume"] = False
+        spec["max_t"] = rng.choice([4, 9])
+        spec["n_workers"] = rng.randint(2, 4)
+        spec["criterion"] = {"max_num_trials_started": rng.randint(14, 24)}
+        spec["inject"] = None
+        bp = spec.get("backend_params") or {}
+        bp.update({"p_fail": 0.0, "p_extstop": 0.0, "short_runs": None})
+        spec["backend_params"] = bp
+        yield spec
 
 
 def corpus():
